@@ -73,6 +73,7 @@ def _ops():
 def cases(tier, seed):
     for i in range(len(_msg_classes())):
         yield {'part': 'A', 'cls': i}
+    yield {'part': 'C'}
     ops = _ops()
     depth = 2 if tier == 'quick' else 3
     # one case = all sequences starting with a given first op (keeps cases coarse for the pool)
@@ -135,6 +136,26 @@ def run_case(case):
                                                                     if v[0].count(':') == 3] or None),
                 'sample': {'class': name, 'outcomes': sorted(outcomes)},
                 'count': {'partA_statuses': len(codes)}, 'keys': [(name, o) for o in outcomes]}
+    if case['part'] == 'C':
+        # the predefined constants of the module (what services and applications compare against and return) classify like a
+        # status built from the same code for the same command
+        prefix = {'C_STORE_': dimsemessages.CStoreRSPMessage, 'C_FIND_': dimsemessages.CFindRSPMessage, 'C_GET_': dimsemessages.CGetRSPMessage,
+                  'C_MOVE_': dimsemessages.CMoveRSPMessage}
+        n = 0
+        for nm, const in sorted(vars(statuses).items()):
+            if not isinstance(const, statuses.Status) or nm.startswith('_'):
+                continue
+            n += 1
+            cls = next((c for p_, c in prefix.items() if nm.startswith(p_)), None)
+            fresh = statuses.Status(int(const), cls)
+            if (const.status_type, _flags(const)) != (fresh.status_type, _flags(fresh)):
+                viol.append(('c18:constant:%s' % nm, 'statuses.%s (0x%04X) is classified %s %r, a status built now from the same code for %s is %s %r' % (
+                    nm, int(const), const.status_type, _flags(const), cls.__name__ if cls else 'no command', fresh.status_type, _flags(fresh))))
+            if int(const) == 0 and not const.is_success:
+                viol.append(('c18:constant:%s' % nm, 'statuses.%s (0x0000) is not a success status' % nm))
+        if n < 10:
+            viol.append(('c18:constants-missing', 'only %d predefined status constants found in pynetdicom2.statuses' % n))
+        return {'viol': viol, 'key': None, 'case': case if viol else None, 'count': {'constants': n}, 'keys': [('constant', n)]}
     # part B
     ops = _ops()
     cmd_cls = {None: None, 0x8020: dimsemessages.CFindRSPMessage, 0x8001: dimsemessages.CStoreRSPMessage}
